@@ -1,9 +1,9 @@
 #!/bin/sh
-# confirm_seeded.sh <out_dir_of_one_change> : independent confirmation of a seeded change in a throw-away worktree.
+# confirm_seeded.sh <out_dir_of_one_change> <pkg dir for flat demo files> [extra test pkgs…] : independent confirmation of a seeded change in a throw-away worktree.
 #   out_dir holds patch.diff, demo/, meta.json. Prints PASS/FAIL lines; exit 0 iff the change is confirmed:
 #   builds, touched packages' tests pass with the patch, demo fails with the patch and passes without it.
 set -u
-d="$(cd "$1" && pwd)"; w=/tmp/c/$$; export GOFLAGS=-mod=mod GOPROXY=off
+d="$(cd "$1" && pwd)"; DEMO_PKG="${2:-}"; w=/tmp/c/$$; export GOFLAGS=-mod=mod GOPROXY=off
 unset GOTOOLCHAIN GOSUMDB
 mkdir -p /tmp/c; git -C /repo worktree add -q --detach $w HEAD || exit 2
 cleanup() { git -C /repo worktree remove --force $w; }
@@ -11,7 +11,7 @@ trap cleanup EXIT
 cd $w
 # where do demo files go? README says; convention: demo/<relative path>/file or flat files + README "put in <pkg>"
 place_demo() { (cd "$d/demo" && find . -type f ! -name 'README*' ) | while read f; do
-    tgt="$f"; if [ "$(dirname "$f")" = "." ]; then pkg=$(grep -ho 'package dir: [^ ]*' "$d"/demo/README* 2>/dev/null | head -1 | sed 's/package dir: //'); [ -n "$pkg" ] && tgt="$pkg/$f"; fi
+    tgt="$f"; if [ "$(dirname "$f")" = "." ]; then [ -n "$DEMO_PKG" ] && tgt="$DEMO_PKG/$f"; fi
     mkdir -p "$(dirname "$tgt")"; cp "$d/demo/$f" "$tgt"; echo "$tgt"; done; }
 demos=$(place_demo)
 pkgs=$(for f in $demos; do echo "./$(dirname $f)"; done | sort -u)
@@ -25,7 +25,7 @@ echo "== demo WITH patch"; out1=$(run_demo); echo "$out1"; echo "$out1" | grep -
 # remove demos, run tests of touched packages (and dependants given as extra args)
 for f in $demos; do rm -f $f; done
 touched=$(git diff --name-only | xargs -n1 dirname | sort -u | sed 's|^|./|')
-shift; extra="$*"
+shift; [ $# -gt 0 ] && shift; extra="$*"
 echo "== package tests with patch: $touched $extra"
 go test -vet=off -count=1 $touched $extra 2>&1 | tail -20 > /tmp/c/$$.log; cat /tmp/c/$$.log
 grep -q "^FAIL\|^--- FAIL" /tmp/c/$$.log && { echo "FAIL: existing tests notice the change"; rm -f /tmp/c/$$.log; exit 1; }
